@@ -106,6 +106,10 @@ TDryRun ==
       <<"C05_agree_dry", Ev.exit = 0 /\ S(Ev.dry) = ToSubmit(W3, fs, Hok, Snap, EffSel(S(Ev.sel)))
                            /\ Len(Ev.dry) = Cardinality(S(Ev.dry))>>,
       <<"C05_dryrun_pure", Ev.pure /\ After(Ev, trk, hsh, fs) = <<TRUE, TRUE, TRUE>> >>,
+      (* C18: a spec that differs from its record makes the target stale for the preview as for status and run *)
+      <<"C18_stale_by_hash", LET plan == ToSubmit(W3, fs, Hok, Snap, EffSel(S(Ev.sel))) IN
+                             Ev.exit = 0 /\ \A t \in plan : (useHash /\ hsh[t] # specv[t]) => t \in S(Ev.dry),
+                            useHash /\ \E t \in ToSubmit(W3, fs, Hok, Snap, EffSel(S(Ev.sel))) : hsh[t] # specv[t]>>,
       <<"C18_unchanged_otherwise", EqT(Ev.after.hsh, hsh)>> })
 
 TRunBegin ==
